@@ -181,7 +181,8 @@ class Calls(Interp):
             # a function verified under a view (second contract) sees the same view of its callees where one is given
             con = self.contracts[qn + '#' + cur.split('#', 1)[1]]
         if con is not None and not inline and not (qn == self.current and st.depth == 0 and not con.recursive_ok) \
-                and not st.spec and qn not in self.force_inline:
+                and not st.spec and qn not in self.force_inline and not (getattr(self, 'force_inline_all', False)
+                                                                         and not con.trusted and qn in self.inline_for_rt1):
             yield from self.apply_contract(con, func, args, kwargs, st)
             return
         if con is not None and st.spec and con.uf_name and not inline:
@@ -806,9 +807,11 @@ class Calls(Interp):
             if at_front:
                 elem = hv.t[0]
                 rest = z3.SubSeq(hv.t, 1, z3.Length(hv.t) - 1)
+                s2.assume(hv.t == z3.Concat(z3.Unit(elem), rest))      # the list before = [popped] + rest (sequence theory)
             else:
                 elem = hv.t[z3.Length(hv.t) - 1]
                 rest = z3.SubSeq(hv.t, 0, z3.Length(hv.t) - 1)
+                s2.assume(hv.t == z3.Concat(rest, z3.Unit(elem)))      # the list before = rest + [popped]
             self._store_container(s2, ref, s2.heap[ref.loc], V(rest, hv.ty))
             yield s2, V(elem, hv.ty.args[0])
 
